@@ -308,8 +308,8 @@ def tasks(tier):
     ts.append(Task('metrics.pandas-model-selftest', t_pdmodel_selftest, extra=dict(x)))
     for types in combos:
         ts.append(Task('metrics.trades.' + ''.join(t_[0] for t_ in types), t_trade_metrics(types), overrides=dict(ov), max_paths=20000,
-                       extra=dict(xm, bounded=f'{len(types)} closed trades (symbolic PnL, fee, holding period), pandas model', task_timeout_s=300 if tier == 'quick' else 1800)))
+                       extra=dict(xm, bounded=f'{len(types)} closed trades (symbolic PnL, fee, holding period), pandas model', task_timeout_s=1200 if tier == 'quick' else 3600)))
     for d in ((2, 3) if tier == 'quick' else (2, 3, 4, 5)):
         ts.append(Task(f'metrics.ratios.d{d}', t_ratio_metrics(d), overrides=dict(ov), max_paths=20000,
-                       extra=dict(xm, bounded=f'{d} daily equity samples (symbolic), pandas model', task_timeout_s=300 if tier == 'quick' else 3600)))
+                       extra=dict(xm, bounded=f'{d} daily equity samples (symbolic), pandas model', task_timeout_s=1200 if tier == 'quick' else 7200)))
     return ts
